@@ -146,6 +146,10 @@ func (st Style) path(p []string) string {
 			return p[0] + "." + p[1]
 		}
 	}
+	if simple && len(p) == 2 {
+		// QuoteAll: qualifier and name quoted separately, the output key stays the last segment
+		return st.quote(p[0]) + "." + st.quote(p[1])
+	}
 	return st.quote(PathText(p))
 }
 
